@@ -4,6 +4,7 @@ import (
 	"fmt"
 	"go/token"
 	"go/types"
+	"os"
 	"sort"
 	"strings"
 
@@ -229,7 +230,13 @@ func flagList(c *Contract, kind string) []string {
 // readOnly name fragments for methods that only read the world.
 var readOnlyPrefixes = []string{"Get", "Has", "Is", "Iterate", "Validator", "Find", "Load", "Query", "Bonded", "Params", "Supported", "Last", "Total", "Keeper", "Logger", "String", "Bytes", "Equal", "Compare", "Len", "Empty", "Type", "Route", "Validate", "Marshal", "Unmarshal", "MustMarshal", "MustUnmarshal", "Unpack", "Err", "Unwrap", "Block", "Chain", "Event", "KVStore", "Header", "With", "Value", "Deadline", "Done", "Amount", "Denom", "Allowance", "Spendable", "Locked", "Module", "Can", "Should", "Lookup", "Exists", "Contains", "Verify", "Recover", "Hash", "Sign", "Key", "Iterator", "ReverseIterator", "Valid", "Next", "Close", "Domain", "Error", "Now", "Peek", "Check", "Must", "Build", "New", "Convert", "Parse", "Decode", "Encode", "Sum", "Interface", "Codec", "Pick", "Debug", "Info", "Warn", "Hex", "Cmp", "Sub", "Add", "Mul", "Quo", "Tokens", "Operator", "Cons"}
 
+// store accessors: obtaining a store handle from a context writes nothing
+var readOnlyExact = map[string]bool{"Store": true, "OpenKVStore": true, "OpenMemoryStore": true, "OpenTransientStore": true}
+
 func looksReadOnly(method string) bool {
+	if readOnlyExact[method] {
+		return true
+	}
 	for _, p := range readOnlyPrefixes {
 		if strings.HasPrefix(method, p) {
 			return true
@@ -305,9 +312,19 @@ outer:
 				if isEffectFreePkg(callee) {
 					continue
 				}
-				if c, ok := x.P.Contracts[CanonName(callee)]; ok {
+				cn := CanonName(callee)
+				c, ok := x.P.Contracts[cn]
+				if !ok {
+					if i := strings.Index(cn, "["); i > 0 {
+						c, ok = x.P.Contracts[cn[:i]]
+					}
+				}
+				if ok {
 					if _, ro := c.Flags["reads_only"]; ro {
 						continue
+					}
+					if _, ro := c.Flags["world_unchanged"]; ro {
+						continue // proved (F3) or trusted not to write
 					}
 				}
 				if x.writesWorld(callee, depth+1) {
@@ -686,7 +703,11 @@ func (x *Exec) applyContract(st *State, fr *Frame, at ssa.Instruction, name stri
 			x.havocRegion(st, sc, region, name)
 		}
 	} else if _, pure := c.Flags["pure"]; !pure {
-		if _, ro := c.Flags["reads_only"]; !ro {
+		_, wu := c.Flags["world_unchanged"]
+		if os.Getenv("GVC_TRACE_FRAME") != "" {
+			fmt.Fprintf(os.Stderr, "applyContract %s flags=%v wu=%v\n", name, c.Flags, wu)
+		}
+		if _, ro := c.Flags["reads_only"]; !ro && !wu {
 			// no frame given: treat like an abstract call w.r.t. the world if the callee may write it
 			if fn == nil || x.writesWorld(fn, 0) {
 				w := sc.world
